@@ -346,6 +346,7 @@ void run_plan(Exec& ex, DoOp do_op)
     const Plan& plan = *c.plan;
     const unsigned L = c.L;
     sim::arena_init();
+    sim::arena_reset();
 
     // initial medium contents
     std::vector<u8> init;
